@@ -73,3 +73,72 @@ Definition negotiate (supported : list str) (cands : list cand) : str :=
   | Some c => fst c
   | None => []
   end.
+
+(* ---------------------------------------------------------------- NegotiateLanguage on the raw header text *)
+(* The header is a list of bytes. strings.TrimSpace / strings.ToLower are modelled on ASCII (bytes >= 128 are
+   left alone); strconv.ParseFloat is a parameter parse_q (None = error): the theorems hold for every such
+   function, the correspondence uses parse_q_dec below. Quality unit: 10^-6. *)
+Fixpoint split_aux (sep : N) (cur : str) (s : str) : list str :=
+  match s with
+  | [] => [rev cur]
+  | c :: r => if c =? sep then rev cur :: split_aux sep [] r else split_aux sep (c :: cur) r
+  end.
+Definition split (sep : N) (s : str) : list str := split_aux sep [] s.    (* strings.Split(s, sep) *)
+
+Definition is_space (c : N) : bool := (c =? 32) || ((9 <=? c) && (c <=? 13)).
+Fixpoint trim_left (s : str) : str :=
+  match s with c :: r => if is_space c then trim_left r else s | [] => [] end.
+Definition trim (s : str) : str := rev (trim_left (rev (trim_left s))).   (* strings.TrimSpace *)
+Definition lower_c (c : N) : N := if (65 <=? c) && (c <=? 90) then c + 32 else c.
+Fixpoint take_until (q : N) (s : str) : str :=
+  match s with [] => [] | c :: r => if c =? q then [] else c :: take_until q r end.
+Definition is_nil (s : str) : bool := match s with [] => true | _ => false end.
+
+Definition q_one : Z := 1000000%Z.
+
+(* one comma separated element of the header -> candidate, or nothing *)
+Definition parse_tag (parse_q : str -> option Z) (raw : str) : option cand :=
+  let raw := trim raw in
+  if is_nil raw then None
+  else match split 59 raw with                        (* ';' *)
+       | [] => None
+       | p0 :: params =>
+           let tag := trim p0 in
+           if is_nil tag || str_eqb tag [42] then None   (* "" or "*" *)
+           else
+             let q := fold_left (fun q p =>
+                        match trim p with
+                        | 113 :: 61 :: v => match parse_q v with Some x => x | None => q end   (* "q=" *)
+                        | _ => q
+                        end) params q_one in
+             let primary := map lower_c (take_until 45 tag) in   (* up to the first '-' *)
+             if is_nil primary then None else Some (primary, q)
+       end.
+
+Definition parse_header (parse_q : str -> option Z) (h : str) : list cand :=
+  let h := trim h in
+  if is_nil h then []
+  else flat_map (fun raw => match parse_tag parse_q raw with Some c => [c] | None => [] end) (split 44 h).
+
+Definition negotiate_header (parse_q : str -> option Z) (supported : list str) (h : str) : str :=
+  negotiate supported (parse_header parse_q h).
+
+(* strconv.ParseFloat on the plain decimal fragment digits[.digits] | .digits with at most 6 fraction digits;
+   every other text is taken as rejected (the check only feeds it texts ParseFloat does reject) *)
+Fixpoint take_digits (s : str) (acc : N) : N * str * nat :=
+  match s with
+  | c :: r => if is_digit c then let '(v, rest, n) := take_digits r (10 * acc + (c - 48)) in (v, rest, S n)
+              else (acc, s, O)
+  | [] => (acc, [], O)
+  end.
+Definition parse_q_dec (v : str) : option Z :=
+  let '(ip, rest, ni) := take_digits v 0 in
+  match rest with
+  | [] => if (0 <? ni)%nat then Some (Z.of_N ip * q_one)%Z else None
+  | 46 :: fr =>
+      let '(fp, rest2, nf) := take_digits fr 0 in
+      if is_nil rest2 && ((0 <? ni)%nat || (0 <? nf)%nat) && (nf <=? 6)%nat
+      then Some (Z.of_N ip * q_one + Z.of_N fp * Z.of_N (10 ^ N.of_nat (6 - nf)))%Z
+      else None
+  | _ => None
+  end.
